@@ -602,6 +602,12 @@ func (c *SpecCtx) evalCall(x *ECall) *V {
 			at = a.Sl.Arr
 		}
 		return boolV(app(SBool, ">", at, c.old.alloc))
+	case "samearray":
+		a, b := c.eval(x.Args[0]), c.eval(x.Args[1])
+		if a.Sl == nil || b.Sl == nil {
+			c.fail("samearray expects two slices")
+		}
+		return boolV(eq(a.Sl.Arr, b.Sl.Arr))
 	case "hasprefix":
 		a, b := c.eval(x.Args[0]), c.eval(x.Args[1])
 		return boolV(and(app(SBool, "<=", strLen(b.T), strLen(a.T)), eq(strSub(a.T, intLit(0), strLen(b.T)), b.T)))
